@@ -83,7 +83,9 @@ def vc_task(task):
         seq = (cards,) if isinstance(cards, SymObj) else tuple(models.to_seq(I, ctx, cards))      # Card.clean of a single card
         k = ids(seq)
         if k not in valid:
-            valid[k] = z3.Bool('valid{' + ','.join(map(str, sorted(k))) + '}')
+            # table fact of C04 (wrong sizes rejected; no entry of another card count): only a set of the type's size can be a hand
+            sizes = (1, 2, 3, 4) if c05.RULE[name] == 'badugi' else ((1,) if c05.RULE[name] == 'kuhn' else (cls.card_count,))
+            valid[k] = z3.Bool('valid{' + ','.join(map(str, sorted(k))) + '}') if (len(k) in sizes and len(k) == len(seq)) else z3.BoolVal(False)
             index[k] = z3.Int('index{' + ','.join(map(str, sorted(k))) + '}')
         I.raise_if(ctx, z3.Not(valid[k]), ValueError, 'invalid-hand@' + I.where(node))
         if ctx.dead:
@@ -406,6 +408,7 @@ def main(argv=None):
         'index structure)',
         'Card.clean is replaced by "materialise the iterable once" (its text forms are C19); lazy variants pass the cards as one-shot iterators, '
         'as State.get_hand does',
+        'only a card set of the type\'s size can be a valid hand (C04: wrong sizes rejected, no table entry of another card count)',
         'badugi: "largest subset first" is the statement\'s rule; that a larger badugi beats every smaller one is a table fact of C04',
         'domain: the (hole, board) counts listed in the evidence (quick: a thinned set; thorough: the whole 0-7 x 0-5 domain of the statement)',
     ]
